@@ -8,32 +8,6 @@ import (
 	"github.com/gobwas/ws"
 )
 
-// vDst records every Write call; optionally fails at call index failAt.
-type vDst struct {
-	calls  [][]byte
-	all    []byte
-	failAt int
-	failed bool
-}
-
-type vErr struct{ s string }
-
-func (e *vErr) Error() string { return e.s }
-
-var vErrDst = &vErr{"harness: destination write failed"}
-
-func (d *vDst) Write(p []byte) (int, error) {
-	if d.failAt >= 0 && len(d.calls) >= d.failAt {
-		d.failed = true
-		d.calls = append(d.calls, nil)
-		return 0, vErrDst
-	}
-	c := append([]byte{}, p...)
-	d.calls = append(d.calls, c)
-	d.all = append(d.all, c...)
-	return len(p), nil
-}
-
 // C06_size_exact: for every requested size n in [1, 2^40] on either side the header space
 // reserved for a buffer of n+headerSize(n) bytes is exactly headerSize(n), i.e.
 // NewWriterSize(..., n).Size() == n across the 125/126 and 65535/65536 thresholds.
@@ -104,12 +78,29 @@ func C06_op_step() {
 	size0 := w.Size()
 
 	maxP := 2*bufLen + 1
+	// write sizes at the boundaries relative to the free space A = bufLen-n:
+	// 0, 1, A-1, A, A+1, bufLen, bufLen+1, 2*bufLen+1 (deduplicated); quick: all 0..maxP for small buffers
+	var wlens []int
+	if bufLen <= 2 {
+		for i := 0; i <= maxP; i++ {
+			wlens = append(wlens, i)
+		}
+	} else {
+		seen := map[int]bool{}
+		for _, v := range []int{0, 1, bufLen - n - 1, bufLen - n, bufLen - n + 1, bufLen, bufLen + 1, maxP} {
+			if v >= 0 && !seen[v] {
+				seen[v] = true
+				wlens = append(wlens, v)
+			}
+		}
+	}
+	pickLen := func() int { return wlens[vChoose("plen", len(wlens))] }
 	var accepted []byte
 	isFlush := false
 	kind := vChoose("kind", 6)
 	switch kind {
 	case 0: // Write
-		p := vBytes("p", vChoose("plen", maxP+1))
+		p := vBytes("p", pickLen())
 		keep := append([]byte{}, p...)
 		k, err := w.Write(p)
 		vAssert(vAnd(err == nil, k == len(p)), "step.write_accepts_all")
@@ -123,7 +114,7 @@ func C06_op_step() {
 		}
 		vAssert(w.dirty, "step.write_marks_dirty")
 	case 1: // ReadFrom
-		data := vBytes("p", vChoose("plen", maxP+1))
+		data := vBytes("p", pickLen())
 		src := vNewSrc(data, vChoose("mode", 2), "chunk")
 		k, err := w.ReadFrom(&src)
 		vAssert(vAnd(err == nil, int(k) == len(data)), "step.readfrom_accepts_all")
@@ -133,7 +124,7 @@ func C06_op_step() {
 		}
 		vAssert(w.dirty, "step.readfrom_marks_dirty")
 	case 2: // WriteThrough
-		p := vBytes("p", vChoose("plen", maxP+1))
+		p := vBytes("p", pickLen())
 		keep := append([]byte{}, p...)
 		k, err := w.WriteThrough(p)
 		vAssert(vEqBytes(p, keep), "step.writethrough_caller_intact")
@@ -163,7 +154,7 @@ func C06_op_step() {
 		}
 		vAssert(vAnd(w.fseq == 0, vAnd(!w.dirty, w.n == 0)), "step.flush_resets_message_state")
 	case 5: // Grow
-		k := vChoose("grow", 2*maxP)
+		k := pickLen() * (1 + vChoose("growx", 2))
 		w.Grow(k)
 		vAssert(len(dst.calls) == 0, "step.grow_emits_nothing")
 		vAssert(w.Available() >= k, "step.grow_available")
@@ -319,7 +310,7 @@ func C06_grow_thresholds() {
 	}
 	totals := []int{124, 125, 126, 127, 248, 249, 250, 251}
 	if vTier() > 0 {
-		totals = append(totals, 65533, 65534, 65535, 65536, 65537, 131063, 131067)
+		totals = append(totals, 65533, 65534, 65535, 65536, 65537)
 	}
 	total := totals[vChoose("total", len(totals))]
 	old := vBytes("old", b)
